@@ -76,6 +76,7 @@ struct BConn {
     bool client_gone = false;
     uint64_t close_seq = 0;
     int unanswered = 0;               // requests received whose ack is withheld/pending
+    std::deque<std::pair<mq::Packet, int>> recent_final_acks;   // (ack, receipt index) of the last few exchanges, for the repeated-acknowledgement quirk
     bool withheld_any = false;
     bool pubrel_blocked = false;      // a PUBREL was withheld: later ones stay behind it [MQTT-4.6.0-4]
 };
@@ -177,6 +178,9 @@ struct Broker : sim::NetSink {
     void restart(bool lose_session);
     void heal();
     void arm(ProtoFault f) { pfaults.push_back(f); }
+    // repeated-acknowledgement quirk, placed by the driver: repeat the final acknowledgements of the last few exchanges of
+    // this connection now (the identifier the client is about to re-use is among them once identifiers wrap around)
+    bool repeat_recent_final_acks(int conn);
 
     // emit a packet on a connection (delay 0 = now)
     int emit(BConn& c, mq::Packet p, ns_t delay, int reply_to = -1, int msg = -1, bool hostile = false, std::string raw_override = {});
